@@ -4,17 +4,25 @@
 //! recursion instantiates every nesting of the five wrapper forms up to depth 3 (lists of length
 //! 0..2 inside nestings) and chains of length 0..5 (optionally under one outer wrapper).
 //!
-//! Script: `w=<letters>;c=<ctx>;r=<req>|tok tok ...`   letters, outermost first:
+//! The context a hook can change has two parts: the span id (u64) and the deadline.  Every script
+//! runs under the harness's virtual clock, so `Instant::now()` is one fixed instant T0 for the
+//! whole call and the deadline is observed exactly, as signed milliseconds relative to T0
+//! (`d<=0`: the deadline has elapsed when the call is made).
+//!
+//! Script: `w=<letters>;c=<span>;r=<req>[;d=<deadline ms rel. T0, default 10000>]|tok tok ...`
+//! letters, outermost first:
 //!   B `.before(hook object)`   A `.after(closure)`   C `.before_and_after(hook object)`
 //!   L `before().then(h0).then_fn(h1)....serving(s)`    M `s.before(before().then(h0)...)`
 //! tokens (any order, any subset; a missing hook is a no-op hook, so deleting tokens keeps the
 //! script valid):
-//!   <slot>b<id>,<ceff>,<feff>   before-hook of wrapper <slot> (0 = outermost); L/M take all of
-//!                               them in order, B/C the first
-//!   <slot>a<id>,<ceff>,<reff>   after-hook of wrapper <slot> (A/C)
+//!   <slot>b<id>,<ceff>,<feff>[,<deff>]   before-hook of wrapper <slot> (0 = outermost); L/M take
+//!                               all of them in order, B/C the first
+//!   <slot>a<id>,<ceff>,<reff>[,<deff>]   after-hook of wrapper <slot> (A/C)
 //!   h<id>,<heff>                the handler
-//!   ceff: k | s<v> | a<d>      feff: n | f<e> | g<t>:<e> | q<q>:<e>
-//!   reff: k | o<v> | e<e> | m<d> | r<v> | x<e> | c        heff: p<d> | e<e> | c
+//!   ceff (span id): k | s<v> | a<d>      deff (deadline): k | d<ms rel. T0, signed>
+//!   feff: n | f<e> | g<t>:<e> | q<q>:<e> | t<e> (fail if the deadline given has elapsed)
+//!   reff: k | o<v> | e<e> | m<d> | r<v> | x<e> | c | d (Ok(deadline seen))
+//!   heff: p<d> | e<e> | c | d
 use crate::exec::{coq_list, Case};
 use crate::rng::Rng;
 use futures::future::{self, Ready};
@@ -24,6 +32,7 @@ use std::future::Future;
 use std::io;
 use std::pin::Pin;
 use std::rc::Rc;
+use std::time::{Duration, Instant};
 use tarpc::context::{self, Context};
 use tarpc::server::request_hook::{
     before, AfterRequest, BeforeRequest, BeforeRequestList, RequestHook,
@@ -39,11 +48,17 @@ pub enum CEff {
     Add(u64),
 }
 #[derive(Clone, Debug, PartialEq)]
+pub enum DEff {
+    Keep,
+    Set(i64),
+}
+#[derive(Clone, Debug, PartialEq)]
 pub enum FEff {
     No,
     Fail(u64),
     CtxGe(u64, u64),
     ReqEq(u64, u64),
+    Expired(u64),
 }
 #[derive(Clone, Debug, PartialEq)]
 pub enum REff {
@@ -54,24 +69,28 @@ pub enum REff {
     Recover(u64),
     FailOk(u64),
     Ctx,
+    Dl,
 }
 #[derive(Clone, Debug, PartialEq)]
 pub enum HEff {
     Plus(u64),
     Err(u64),
     Ctx,
+    Dl,
 }
 #[derive(Clone, Debug, PartialEq)]
 pub struct BSpec {
     pub id: u32,
     pub ce: CEff,
     pub fe: FEff,
+    pub de: DEff,
 }
 #[derive(Clone, Debug, PartialEq)]
 pub struct ASpec {
     pub id: u32,
     pub ce: CEff,
     pub re: REff,
+    pub de: DEff,
 }
 #[derive(Clone, Debug, PartialEq)]
 pub enum Tok {
@@ -84,8 +103,10 @@ pub struct Script {
     pub shape: Vec<char>,
     pub ctx: u64,
     pub req: u64,
+    pub dl: i64,
     pub toks: Vec<Tok>,
 }
+const DL_MAX: i64 = 900_000_000;
 
 // ------------------------------------------------------------------------------ text format
 fn show_ce(c: &CEff) -> String {
@@ -101,6 +122,13 @@ fn show_fe(f: &FEff) -> String {
         FEff::Fail(e) => format!("f{e}"),
         FEff::CtxGe(t, e) => format!("g{t}:{e}"),
         FEff::ReqEq(q, e) => format!("q{q}:{e}"),
+        FEff::Expired(e) => format!("t{e}"),
+    }
+}
+fn show_de(d: &DEff) -> String {
+    match d {
+        DEff::Keep => String::new(),
+        DEff::Set(k) => format!(",d{k}"),
     }
 }
 fn show_re(r: &REff) -> String {
@@ -112,6 +140,7 @@ fn show_re(r: &REff) -> String {
         REff::Recover(v) => format!("r{v}"),
         REff::FailOk(e) => format!("x{e}"),
         REff::Ctx => "c".into(),
+        REff::Dl => "d".into(),
     }
 }
 fn show_he(h: &HEff) -> String {
@@ -119,6 +148,7 @@ fn show_he(h: &HEff) -> String {
         HEff::Plus(d) => format!("p{d}"),
         HEff::Err(e) => format!("e{e}"),
         HEff::Ctx => "c".into(),
+        HEff::Dl => "d".into(),
     }
 }
 pub fn show(s: &Script) -> String {
@@ -126,13 +156,18 @@ pub fn show(s: &Script) -> String {
         .toks
         .iter()
         .map(|t| match t {
-            Tok::B(sl, b) => format!("{sl}b{},{},{}", b.id, show_ce(&b.ce), show_fe(&b.fe)),
-            Tok::A(sl, a) => format!("{sl}a{},{},{}", a.id, show_ce(&a.ce), show_re(&a.re)),
+            Tok::B(sl, b) => {
+                format!("{sl}b{},{},{}{}", b.id, show_ce(&b.ce), show_fe(&b.fe), show_de(&b.de))
+            }
+            Tok::A(sl, a) => {
+                format!("{sl}a{},{},{}{}", a.id, show_ce(&a.ce), show_re(&a.re), show_de(&a.de))
+            }
             Tok::H(id, h) => format!("h{id},{}", show_he(h)),
         })
         .collect();
     let w: String = s.shape.iter().collect();
-    format!("w={w};c={};r={}|{}", s.ctx, s.req, toks.join(" "))
+    let d = if s.dl == 10_000 { String::new() } else { format!(";d={}", s.dl) };
+    format!("w={w};c={};r={}{d}|{}", s.ctx, s.req, toks.join(" "))
 }
 
 fn num(s: &str) -> Option<u64> {
@@ -164,6 +199,15 @@ fn parse_fe(s: &str) -> Option<FEff> {
             let (q, e) = two(a)?;
             FEff::ReqEq(q, e)
         }
+        "t" => FEff::Expired(num(a)?),
+        _ => return None,
+    })
+}
+fn parse_de(s: &str) -> Option<DEff> {
+    let (h, a) = s.split_at(1.min(s.len()));
+    Some(match h {
+        "k" => DEff::Keep,
+        "d" => DEff::Set(a.parse::<i64>().ok()?.clamp(-DL_MAX, DL_MAX)),
         _ => return None,
     })
 }
@@ -177,6 +221,7 @@ fn parse_re(s: &str) -> Option<REff> {
         "r" => REff::Recover(num(a)?),
         "x" => REff::FailOk(num(a)?),
         "c" => REff::Ctx,
+        "d" => REff::Dl,
         _ => return None,
     })
 }
@@ -186,19 +231,21 @@ fn parse_he(s: &str) -> Option<HEff> {
         "p" => HEff::Plus(num(a)?),
         "e" => HEff::Err(num(a)?),
         "c" => HEff::Ctx,
+        "d" => HEff::Dl,
         _ => return None,
     })
 }
 pub fn parse(line: &str) -> Option<Script> {
     let (cfg, rest) = line.trim().split_once('|')?;
     let mut shape = vec![];
-    let (mut ctx, mut req) = (0u64, 0u64);
+    let (mut ctx, mut req, mut dl) = (0u64, 0u64, 10_000i64);
     for part in cfg.split(';') {
         let (k, v) = part.trim().split_once('=')?;
         match k {
             "w" => shape = v.chars().filter(|c| "BACLM".contains(*c)).take(3).collect(),
             "c" => ctx = num(v)?,
             "r" => req = num(v)?,
+            "d" => dl = v.parse::<i64>().ok()?.clamp(-DL_MAX, DL_MAX),
             _ => return None,
         }
     }
@@ -212,17 +259,18 @@ pub fn parse(line: &str) -> Option<Script> {
         let slot = t.get(0..1)?.parse::<usize>().ok()?;
         let kind = t.get(1..2)?;
         let f: Vec<&str> = t.get(2..)?.split(',').collect();
-        if f.len() != 3 {
+        if f.len() != 3 && f.len() != 4 {
             return None;
         }
         let id: u32 = f[0].parse().ok()?;
+        let de = if f.len() == 4 { parse_de(f[3])? } else { DEff::Keep };
         match kind {
-            "b" => toks.push(Tok::B(slot, BSpec { id, ce: parse_ce(f[1])?, fe: parse_fe(f[2])? })),
-            "a" => toks.push(Tok::A(slot, ASpec { id, ce: parse_ce(f[1])?, re: parse_re(f[2])? })),
+            "b" => toks.push(Tok::B(slot, BSpec { id, ce: parse_ce(f[1])?, fe: parse_fe(f[2])?, de })),
+            "a" => toks.push(Tok::A(slot, ASpec { id, ce: parse_ce(f[1])?, re: parse_re(f[2])?, de })),
             _ => return None,
         }
     }
-    Some(Script { shape, ctx, req, toks })
+    Some(Script { shape, ctx, req, dl, toks })
 }
 
 // ------------------------------------------------------------------------------ Coq terms
@@ -239,7 +287,20 @@ fn coq_fe(f: &FEff) -> String {
         FEff::Fail(e) => format!("(FFail {e})"),
         FEff::CtxGe(t, e) => format!("(FCtxGe {t} {e})"),
         FEff::ReqEq(q, e) => format!("(FReqEq {q} {e})"),
+        FEff::Expired(e) => format!("(FExpired {e})"),
     }
+}
+fn coq_de(d: &DEff) -> String {
+    match d {
+        DEff::Keep => "DKeep".into(),
+        DEff::Set(k) => format!("(DSet ({k})%Z)"),
+    }
+}
+fn coq_ctx(c: (u64, i64)) -> String {
+    format!("({}, ({})%Z)", c.0, c.1)
+}
+fn enc_dl(d: i64) -> u64 {
+    (d + 1_000_000_000_000) as u64
 }
 fn coq_re(r: &REff) -> String {
     match r {
@@ -250,6 +311,7 @@ fn coq_re(r: &REff) -> String {
         REff::Recover(v) => format!("(RRecover {v})"),
         REff::FailOk(e) => format!("(RFailOk {e})"),
         REff::Ctx => "RCtx".into(),
+        REff::Dl => "RDl".into(),
     }
 }
 fn coq_he(h: &HEff) -> String {
@@ -257,13 +319,26 @@ fn coq_he(h: &HEff) -> String {
         HEff::Plus(d) => format!("(HPlus {d})"),
         HEff::Err(e) => format!("(HErr {e})"),
         HEff::Ctx => "HCtx".into(),
+        HEff::Dl => "HDl".into(),
     }
 }
 fn coq_b(b: &BSpec) -> String {
-    format!("{{| b_id := {}; b_ceff := {}; b_feff := {} |}}", b.id, coq_ce(&b.ce), coq_fe(&b.fe))
+    format!(
+        "{{| b_id := {}; b_ceff := {}; b_deff := {}; b_feff := {} |}}",
+        b.id,
+        coq_ce(&b.ce),
+        coq_de(&b.de),
+        coq_fe(&b.fe)
+    )
 }
 fn coq_a(a: &ASpec) -> String {
-    format!("{{| a_id := {}; a_ceff := {}; a_reff := {} |}}", a.id, coq_ce(&a.ce), coq_re(&a.re))
+    format!(
+        "{{| a_id := {}; a_ceff := {}; a_deff := {}; a_reff := {} |}}",
+        a.id,
+        coq_ce(&a.ce),
+        coq_de(&a.de),
+        coq_re(&a.re)
+    )
 }
 fn coq_res(r: &Result<u64, ServerError>) -> String {
     match r {
@@ -273,10 +348,14 @@ fn coq_res(r: &Result<u64, ServerError>) -> String {
 }
 
 // ------------------------------------------------------------------------------ the hooks
-#[derive(Clone, Default)]
+#[derive(Clone)]
 pub struct Env {
     log: Rc<RefCell<Vec<String>>>,
     tags: Rc<RefCell<BTreeSet<String>>>,
+    /// (hook id, deadline it left, whether it failed) for every before-hook that ran
+    ran: Rc<RefCell<Vec<(u32, i64, bool)>>>,
+    /// the instant the call is made; `Instant::now()` stays here (virtual clock)
+    t0: Instant,
 }
 impl Env {
     fn tag(&self, t: &str) {
@@ -284,11 +363,24 @@ impl Env {
     }
 }
 
-fn get_ctx(c: &Context) -> u64 {
-    u64::from(c.trace_context.span_id)
+fn instant_at(t0: Instant, ms: i64) -> Instant {
+    if ms >= 0 {
+        t0 + Duration::from_millis(ms as u64)
+    } else {
+        t0 - Duration::from_millis(ms.unsigned_abs())
+    }
 }
-fn apply_ce(e: &CEff, c: &mut Context, env: &Env) {
-    let old = get_ctx(c);
+/// (span id, deadline in signed ms relative to T0): exact, because T0 is fixed
+fn get_ctx(c: &Context, env: &Env) -> (u64, i64) {
+    let dl = if c.deadline >= env.t0 {
+        (c.deadline - env.t0).as_millis() as i64
+    } else {
+        -((env.t0 - c.deadline).as_millis() as i64)
+    };
+    (u64::from(c.trace_context.span_id), dl)
+}
+fn apply_ce(e: &CEff, d: &DEff, c: &mut Context, env: &Env) {
+    let (old, old_dl) = get_ctx(c, env);
     let new = match e {
         CEff::Keep => old,
         CEff::Set(v) => *v,
@@ -298,21 +390,29 @@ fn apply_ce(e: &CEff, c: &mut Context, env: &Env) {
         env.tag("ctx-mutated");
     }
     c.trace_context.span_id = SpanId::from(new);
+    if let DEff::Set(k) = d {
+        if *k != old_dl {
+            env.tag("deadline-mutated");
+        }
+        c.deadline = instant_at(env.t0, *k);
+    }
 }
 fn err(code: u64) -> ServerError {
     ServerError::new(io::ErrorKind::Other, code.to_string())
 }
 
 fn before_impl(s: &BSpec, env: &Env, ctx: &mut Context, req: &u64) -> Result<(), ServerError> {
-    let seen = get_ctx(ctx);
-    env.log.borrow_mut().push(format!("EBefore {} {} {}", s.id, seen, req));
-    apply_ce(&s.ce, ctx, env);
+    let seen = get_ctx(ctx, env);
+    env.log.borrow_mut().push(format!("EBefore {} {} {}", s.id, coq_ctx(seen), req));
+    apply_ce(&s.ce, &s.de, ctx, env);
     let fail = match s.fe {
         FEff::No => None,
         FEff::Fail(e) => Some(e),
-        FEff::CtxGe(t, e) => (seen >= t).then_some(e),
+        FEff::CtxGe(t, e) => (seen.0 >= t).then_some(e),
         FEff::ReqEq(q, e) => (*req == q).then_some(e),
+        FEff::Expired(e) => (seen.1 <= 0).then_some(e),
     };
+    env.ran.borrow_mut().push((s.id, get_ctx(ctx, env).1, fail.is_some()));
     match fail {
         Some(e) => {
             env.tag("before-failed");
@@ -323,13 +423,13 @@ fn before_impl(s: &BSpec, env: &Env, ctx: &mut Context, req: &u64) -> Result<(),
 }
 
 fn after_impl(s: &ASpec, env: &Env, ctx: &mut Context, resp: &mut Result<u64, ServerError>) {
-    let seen = get_ctx(ctx);
+    let seen = get_ctx(ctx, env);
     let shown = coq_res(resp);
-    env.log.borrow_mut().push(format!("EAfter {} {} {}", s.id, seen, shown));
+    env.log.borrow_mut().push(format!("EAfter {} {} {}", s.id, coq_ctx(seen), shown));
     if resp.is_err() {
         env.tag("after-saw-error");
     }
-    apply_ce(&s.ce, ctx, env);
+    apply_ce(&s.ce, &s.de, ctx, env);
     let new: Result<u64, ServerError> = match (&s.re, &*resp) {
         (REff::Keep, _) => return,
         (REff::SetOk(v), _) => Ok(*v),
@@ -340,7 +440,8 @@ fn after_impl(s: &ASpec, env: &Env, ctx: &mut Context, resp: &mut Result<u64, Se
         (REff::Recover(_), Ok(_)) => return,
         (REff::FailOk(e), Ok(_)) => Err(err(*e)),
         (REff::FailOk(_), Err(_)) => return,
-        (REff::Ctx, _) => Ok(seen),
+        (REff::Ctx, _) => Ok(seen.0),
+        (REff::Dl, _) => Ok(enc_dl(seen.1)),
     };
     if coq_res(&new) != shown {
         env.tag("after-rewrote-result");
@@ -365,7 +466,11 @@ impl AfterRequest<u64> for Hook {
     }
 }
 fn bobj(b: &BSpec, env: &Env) -> Hook {
-    Hook { b: b.clone(), a: ASpec { id: 0, ce: CEff::Keep, re: REff::Keep }, env: env.clone() }
+    Hook {
+        b: b.clone(),
+        a: ASpec { id: 0, ce: CEff::Keep, re: REff::Keep, de: DEff::Keep },
+        env: env.clone(),
+    }
 }
 /// A before-hook given as a closure (the blanket `impl BeforeRequest for FnMut`).
 fn bfn(
@@ -490,6 +595,7 @@ macro_rules! level {
                     id: 90,
                     ce: CEff::Keep,
                     fe: FEff::No,
+                    de: DEff::Keep,
                 });
                 match slot.kind {
                     'B' => <$next>::build(
@@ -558,7 +664,7 @@ pub fn slots_of(s: &Script) -> Vec<Slot> {
                     Tok::A(sl, a) if *sl == i => Some(a.clone()),
                     _ => None,
                 })
-                .unwrap_or(ASpec { id: 95, ce: CEff::Keep, re: REff::Keep });
+                .unwrap_or(ASpec { id: 95, ce: CEff::Keep, re: REff::Keep, de: DEff::Keep });
             let befores = match kind {
                 'B' | 'C' => befores.into_iter().take(1).collect(),
                 'A' => vec![],
@@ -570,7 +676,14 @@ pub fn slots_of(s: &Script) -> Vec<Slot> {
 }
 
 pub fn to_case(s: &Script) -> Case {
-    let env = Env::default();
+    // virtual clock: Instant::now() is one fixed instant for the whole script
+    crate::vclock::reset();
+    let env = Env {
+        log: Default::default(),
+        tags: Default::default(),
+        ran: Default::default(),
+        t0: Instant::now(),
+    };
     let (hid, heff) = s
         .toks
         .iter()
@@ -581,6 +694,7 @@ pub fn to_case(s: &Script) -> Case {
         .unwrap_or((0, HEff::Plus(0)));
     let mut ctx = context::current();
     ctx.trace_context.span_id = SpanId::from(s.ctx);
+    ctx.deadline = instant_at(env.t0, s.dl);
     let call = Call { ctx, req: s.req, env: env.clone() };
     let slots = slots_of(s);
     let mut inner_first = slots.clone();
@@ -593,11 +707,13 @@ pub fn to_case(s: &Script) -> Case {
     let henv = env.clone();
     let he = heff.clone();
     let base = serve(move |c: Context, r: u64| {
-        henv.log.borrow_mut().push(format!("EHandler {} {} {}", hid, get_ctx(&c), r));
+        let seen = get_ctx(&c, &henv);
+        henv.log.borrow_mut().push(format!("EHandler {} {} {}", hid, coq_ctx(seen), r));
         future::ready(match he {
             HEff::Plus(d) => Ok(r.wrapping_add(d)),
             HEff::Err(e) => Err(err(e)),
-            HEff::Ctx => Ok(get_ctx(&c)),
+            HEff::Ctx => Ok(seen.0),
+            HEff::Dl => Ok(enc_dl(seen.1)),
         })
     });
     let base_term = format!("(Base {{| h_id := {hid}; h_eff := {} |}})", coq_he(&heff));
@@ -640,9 +756,32 @@ pub fn to_case(s: &Script) -> Case {
             env.tag("handler-skipped");
         }
     }
+    // deadline scenarios: inside a list (L/M), a hook returned Ok leaving an elapsed deadline and
+    // the list went on to its next hook; and, on top of that, a later hook of that list failed
+    if s.dl <= 0 {
+        env.tag("call-with-elapsed-deadline");
+    }
+    {
+        let ran = env.ran.borrow();
+        let find = |id: u32| ran.iter().find(|x| x.0 == id).cloned();
+        for sl in slots.iter().filter(|sl| "LM".contains(sl.kind)) {
+            for (i, h) in sl.befores.iter().enumerate() {
+                let Some((_, dl_left, failed)) = find(h.id) else { continue };
+                if failed || dl_left > 0 || i + 1 >= sl.befores.len() {
+                    continue;
+                }
+                if find(sl.befores[i + 1].id).is_some() {
+                    env.tag("list-continued-with-elapsed-deadline");
+                    if sl.befores[i + 1..].iter().any(|l| find(l.id).map_or(false, |x| x.2)) {
+                        env.tag("elapsed-deadline+list+later-hook-failed");
+                    }
+                }
+            }
+        }
+    }
     let tags: Vec<String> = env.tags.borrow().iter().cloned().collect();
     Case {
-        cfg: format!("({term}, {}, {})", s.ctx, s.req),
+        cfg: format!("({term}, {}, {})", coq_ctx((s.ctx, s.dl)), s.req),
         ops: "[]".into(),
         obs: format!("({}, {})", coq_list(&events), res_term),
         tags,
@@ -660,28 +799,47 @@ fn gen_ce(rng: &mut Rng) -> CEff {
     }
 }
 fn gen_re(rng: &mut Rng) -> REff {
-    match rng.weighted(&[3, 2, 2, 3, 3, 2, 2]) {
+    match rng.weighted(&[3, 2, 2, 3, 3, 2, 2, 1]) {
         0 => REff::Keep,
         1 => REff::SetOk(rng.below(100)),
         2 => REff::SetErr(rng.range(1, 99)),
         3 => REff::MapOk(rng.range(1, 9)),
         4 => REff::Recover(rng.below(100)),
         5 => REff::FailOk(rng.range(1, 99)),
-        _ => REff::Ctx,
+        6 => REff::Ctx,
+        _ => REff::Dl,
     }
 }
 fn gen_fail(rng: &mut Rng, ctx: u64, req: u64) -> FEff {
     let e = rng.range(1, 99);
-    match rng.weighted(&[5, 2, 2]) {
+    match rng.weighted(&[5, 2, 2, 1]) {
         0 => FEff::Fail(e),
         1 => FEff::CtxGe(ctx.wrapping_add(rng.below(12)), e),
-        _ => FEff::ReqEq(if rng.chance(2, 3) { req } else { req.wrapping_add(1) }, e),
+        2 => FEff::ReqEq(if rng.chance(2, 3) { req } else { req.wrapping_add(1) }, e),
+        _ => FEff::Expired(e),
     }
 }
 
 /// Random compositions: half from the nest family (depth 0..3), half chains of length 0..5
 /// under an optional outer wrapper, with the failing position swept by the generator.
+/// Deadline modes: 45% the call has a live deadline and hooks rarely touch it; 30% the call
+/// arrives with an elapsed deadline (-60 s, -1 ms or exactly now); 25% one of the earlier
+/// before-hooks moves the deadline to now / the past.  In the last two modes chains have at
+/// least two hooks and, in 70% of the scripts, a hook *after* the first one fails.
 pub fn gen(rng: &mut Rng) -> Script {
+    let mode = rng.weighted(&[45, 30, 25]);
+    let past = |rng: &mut Rng| *rng.pick(&[-60_000i64, -1, 0, -3_600_000]);
+    let future = |rng: &mut Rng| *rng.pick(&[1i64, 5_000, 120_000, 10_000]);
+    let dl = match mode {
+        1 => past(rng),
+        _ => {
+            if rng.chance(1, 2) {
+                10_000
+            } else {
+                future(rng)
+            }
+        }
+    };
     let ctx = if rng.chance(1, 8) { u64::MAX - rng.below(4) } else { rng.below(20) };
     let req = if rng.chance(1, 10) { u64::MAX - rng.below(3) } else { rng.below(30) };
     let letters = ['B', 'A', 'C', 'L', 'M'];
@@ -694,18 +852,26 @@ pub fn gen(rng: &mut Rng) -> Script {
             lens.push(1);
         }
         shape.push(*rng.pick(&letters[3..]));
-        lens.push(rng.range(0, 5) as usize);
+        lens.push(rng.range(if mode == 0 { 0 } else { 2 }, 5) as usize);
     } else {
         let depth = rng.weighted(&[1, 3, 6, 10]);
         for _ in 0..depth {
             let l = *rng.pick(&letters);
             shape.push(l);
-            lens.push(if "LM".contains(l) { rng.range(0, 2) as usize } else { 1 });
+            lens.push(if "LM".contains(l) { rng.range(if mode == 0 { 0 } else { 1 }, 2) as usize } else { 1 });
         }
     }
     // which before-hook (in script order) fails, if any
     let nb: usize = shape.iter().zip(&lens).map(|(k, n)| if *k == 'A' { 0 } else { *n }).sum();
-    let failing = if nb > 0 && rng.chance(3, 5) { Some(rng.below(nb as u64) as usize) } else { None };
+    let failing = if mode != 0 && nb >= 2 && rng.chance(7, 10) {
+        Some(rng.range(1, nb as u64 - 1) as usize)
+    } else if nb > 0 && rng.chance(3, 5) {
+        Some(rng.below(nb as u64) as usize)
+    } else {
+        None
+    };
+    // mode 2: which before-hook moves the deadline to now / the past (an early one)
+    let setter = if mode == 2 && nb > 0 { Some(rng.below((nb as u64 - 1).max(1)) as usize) } else { None };
     let mut toks = vec![];
     let mut id = 1u32;
     let mut bi = 0usize;
@@ -719,20 +885,32 @@ pub fn gen(rng: &mut Rng) -> Script {
                 } else {
                     FEff::No
                 };
-                toks.push(Tok::B(slot, BSpec { id, ce: gen_ce(rng), fe }));
+                let de = if Some(bi) == setter {
+                    DEff::Set(past(rng))
+                } else {
+                    match mode {
+                        0 if rng.chance(1, 12) => DEff::Set(if rng.chance(1, 2) { past(rng) } else { future(rng) }),
+                        1 | 2 if rng.chance(1, 8) => DEff::Set(future(rng)),
+                        1 | 2 if rng.chance(1, 10) => DEff::Set(past(rng)),
+                        _ => DEff::Keep,
+                    }
+                };
+                toks.push(Tok::B(slot, BSpec { id, ce: gen_ce(rng), fe, de }));
                 id += 1;
                 bi += 1;
             }
         }
         if *k == 'A' || *k == 'C' {
-            toks.push(Tok::A(slot, ASpec { id, ce: gen_ce(rng), re: gen_re(rng) }));
+            let de = if rng.chance(1, 8) { DEff::Set(past(rng)) } else { DEff::Keep };
+            toks.push(Tok::A(slot, ASpec { id, ce: gen_ce(rng), re: gen_re(rng), de }));
             id += 1;
         }
     }
-    let he = match rng.weighted(&[5, 2, 3]) {
+    let he = match rng.weighted(&[5, 2, 3, 2]) {
         0 => HEff::Plus(rng.below(5)),
         1 => HEff::Err(rng.range(1, 99)),
-        _ => HEff::Ctx,
+        2 => HEff::Ctx,
+        _ => HEff::Dl,
     };
     toks.push(Tok::H(0, he));
     // occasionally drop a token (default hooks) or shuffle two tokens of different slots
@@ -740,7 +918,7 @@ pub fn gen(rng: &mut Rng) -> Script {
         let i = rng.below(toks.len() as u64) as usize;
         toks.remove(i);
     }
-    Script { shape, ctx, req, toks }
+    Script { shape, ctx, req, dl, toks }
 }
 
 /// Bounded-exhaustive family (thorough tier):
@@ -764,7 +942,8 @@ pub fn sweep(mut f: impl FnMut(Script)) {
         shapes.extend(next.iter().cloned());
         frontier = next;
     }
-    let mk = |shape: &Vec<char>, lens: &Vec<usize>, failing: Option<usize>, variant: u64| {
+    // dl0: deadline of the call; setter: the before-hook that moves the deadline to exactly now
+    let mk = |shape: &Vec<char>, lens: &Vec<usize>, failing: Option<usize>, variant: u64, dl0: i64, setter: Option<usize>| {
         let mut toks = vec![];
         let mut id = 1u32;
         let mut bi = 0usize;
@@ -772,7 +951,8 @@ pub fn sweep(mut f: impl FnMut(Script)) {
             if *k != 'A' {
                 for _ in 0..*n {
                     let fe = if Some(bi) == failing { FEff::Fail(40 + bi as u64) } else { FEff::No };
-                    toks.push(Tok::B(slot, BSpec { id, ce: CEff::Add(1 << bi), fe }));
+                    let de = if Some(bi) == setter { DEff::Set(0) } else { DEff::Keep };
+                    toks.push(Tok::B(slot, BSpec { id, ce: CEff::Add(1 << bi), fe, de }));
                     id += 1;
                     bi += 1;
                 }
@@ -783,21 +963,24 @@ pub fn sweep(mut f: impl FnMut(Script)) {
                     1 => REff::Recover(7),
                     _ => REff::Ctx,
                 };
-                toks.push(Tok::A(slot, ASpec { id, ce: CEff::Add(1000), re }));
+                toks.push(Tok::A(slot, ASpec { id, ce: CEff::Add(1000), re, de: DEff::Keep }));
                 id += 1;
             }
         }
-        toks.push(Tok::H(0, if variant % 2 == 0 { HEff::Ctx } else { HEff::Plus(1) }));
-        Script { shape: shape.clone(), ctx: 0, req: 5, toks }
+        toks.push(Tok::H(0, match variant % 3 { 0 => HEff::Ctx, 1 => HEff::Plus(1), _ => HEff::Dl }));
+        Script { shape: shape.clone(), ctx: 0, req: 5, dl: dl0, toks }
     };
     for shape in &shapes {
         let lens: Vec<usize> = shape.iter().map(|k| if "LM".contains(*k) { 2 } else { 1 }).collect();
         let nb: usize = shape.iter().zip(&lens).map(|(k, n)| if *k == 'A' { 0 } else { *n }).sum();
         for variant in 0..2 {
-            f(mk(shape, &lens, None, variant));
+            f(mk(shape, &lens, None, variant, 10_000, None));
         }
+        // the same nesting called with an elapsed deadline
+        f(mk(shape, &lens, None, 2, -60_000, None));
         for fail in 0..nb {
-            f(mk(shape, &lens, Some(fail), fail as u64));
+            f(mk(shape, &lens, Some(fail), fail as u64, 10_000, None));
+            f(mk(shape, &lens, Some(fail), fail as u64, if fail % 2 == 0 { 0 } else { -60_000 }, None));
         }
     }
     for outer in [None, Some('B'), Some('A'), Some('C')] {
@@ -812,9 +995,24 @@ pub fn sweep(mut f: impl FnMut(Script)) {
                 shape.push(form);
                 lens.push(len);
                 let nb: usize = shape.iter().zip(&lens).map(|(k, n)| if *k == 'A' { 0 } else { *n }).sum();
-                f(mk(&shape, &lens, None, len as u64));
+                f(mk(&shape, &lens, None, len as u64, 10_000, None));
                 for fail in 0..nb {
-                    f(mk(&shape, &lens, Some(fail), fail as u64));
+                    f(mk(&shape, &lens, Some(fail), fail as u64, 10_000, None));
+                }
+                // elapsed deadlines: the call arrives expired (-60 s, exactly now), or hook
+                // `set` of the chain moves a live deadline to now; no failure and every failing
+                // position
+                for dl0 in [-60_000i64, 0] {
+                    f(mk(&shape, &lens, None, 2, dl0, None));
+                    for fail in 0..nb {
+                        f(mk(&shape, &lens, Some(fail), 2, dl0, None));
+                    }
+                }
+                for set in 0..nb {
+                    f(mk(&shape, &lens, None, 2, 10_000, Some(set)));
+                    for fail in set + 1..nb {
+                        f(mk(&shape, &lens, Some(fail), 2, 10_000, Some(set)));
+                    }
                 }
             }
         }
